@@ -37,6 +37,22 @@ func genericReplay(c *core.Ctx, raw []byte) error {
 	if err := json.Unmarshal(raw, &d); err != nil {
 		return err
 	}
+	// strings that were not valid UTF-8 when recorded come back byte for byte
+	for k, v := range d.Files {
+		delete(d.Files, k)
+		d.Files[core.UnsafeString(k)] = core.UnsafeString(v)
+	}
+	for i := range d.Args {
+		d.Args[i] = core.UnsafeString(d.Args[i])
+	}
+	for k, v := range d.Env {
+		d.Env[k] = core.UnsafeString(v)
+	}
+	d.Book = core.UnsafeString(d.Book)
+	if d.File != nil {
+		f := core.UnsafeString(*d.File)
+		d.File = &f
+	}
 	switch {
 	case len(d.Args) > 0 && (len(d.Files) > 0 || d.Book == ""):
 		dir := c.Work + "/replay"
